@@ -436,6 +436,20 @@ let eval (x : sx) : sx =
       renv (join_tempo fnum (flex ta) (flex tb) (penv ta) (zi da) (penv tb))
   | L (A "envq" :: e :: qs) -> let e = penv e in L (A "envq" :: List.map (env_query e) qs)
   | L [A "envop"; e; op] -> env_op (penv e) op
+  | L (A "envhist" :: e :: ops) ->
+      (* a history of in-place edits on one envelope: the control points after every step *)
+      let rec go (cur : float env) (ops : sx list) (acc : sx list) : sx list =
+        match ops with
+        | [] -> List.rev acc
+        | op :: r ->
+          let res = (match op with
+            | L [A "sample_at"; t; ap] -> sample_at fnum cur (zi t) (zi ap)
+            | L [A "extend_until"; d] -> env_extend_until fnum cur (zi d)
+            | L [A "cut_out"; s; en] -> env_cut_out fnum cur (zi s) (zi en)
+            | L [A "cut_off"; s; en] -> env_cut_off fnum cur (zi s) (zi en)
+            | _ -> failwith ("unknown env op " ^ show op)) in
+          (match res with Ok e' -> go e' r (renv res :: acc) | Err k -> List.rev (rerr k :: acc)) in
+      L (A "envhist" :: go (penv e) ops [])
   | L [A "of_points"; L pts] ->
       senv (of_points (List.map (fun p -> match p with L [t; v; c] -> ((zi t, fl v), fl c) | _ -> failwith "point") pts))
   | L (A "op" :: t :: [op]) -> rtree (apply_op (tree t) op)
